@@ -235,6 +235,42 @@ class ServerFacts:
                 return True
         return True
 
+    def reply_queue_facts(self):
+        """(finishes_in_finally, drains_on_failure, skips_dead_writer) of the reply queue:
+        * `response_writer` calls `response_queue.task_done()` in the `finally` of the try around `write_response`;
+        * that try has a clause for BaseException (or a bare one) that empties the queue (get_nowait + task_done in a
+          loop) and re-raises;
+        * the `response=` callable handed to `Connection(...)` tests `<task>.done()` of the very task that runs
+          `response_writer` (and that task is what the dispatcher creates) before it queues anything."""
+        node = self.methods["response_writer"]
+        fin = drain = False
+        for n in ast.walk(node):
+            if isinstance(n, ast.Try) and any("write_response" in ast.unparse(b) for b in n.body):
+                fin = any("task_done()" in ast.unparse(b) for b in n.finalbody)
+                for h in n.handlers:
+                    names = ["BaseException"] if h.type is None else [ast.unparse(t).split(".")[-1] for t in (h.type.elts if isinstance(h.type, ast.Tuple) else [h.type])]
+                    if "BaseException" in names:
+                        loops = [x for b in h.body for x in ast.walk(b) if isinstance(x, ast.While)]
+                        body = "\n".join(ast.unparse(l) for l in loops)
+                        raises = any(isinstance(b, ast.Raise) and b.exc is None for b in h.body)
+                        if loops and "get_nowait()" in body and "task_done()" in body and raises:
+                            drain = True
+        disp = self.methods["dispatcher"]
+        writer_names = set()
+        for n in ast.walk(disp):
+            if isinstance(n, ast.Assign) and len(n.targets) == 1 and isinstance(n.targets[0], ast.Name) and "self.response_writer(" in ast.unparse(n.value) and "create_task" in ast.unparse(n.value):
+                writer_names.add(n.targets[0].id)
+        skip = False
+        for n in ast.walk(disp):
+            if isinstance(n, ast.Call) and ast.unparse(n.func) == "Connection":
+                for kw in n.keywords:
+                    if kw.arg == "response" and isinstance(kw.value, ast.Lambda):
+                        text = ast.unparse(kw.value.body)
+                        for w in writer_names:
+                            if text.startswith("%s.done() or " % w) and "put_nowait" in text:
+                                skip = True
+        return fin, drain, skip
+
     def passive_start_locked(self):
         """are the test `connection.future.passive_server.done()` and the `_start_passive_server` call of BOTH passive
         handlers (pasv, epsv) inside one `async with` on a per-connection lock created in the dispatcher's
@@ -653,6 +689,13 @@ def gen_server():
     lines.append("def passiveCancelReturnsPort : Bool := %s" % ("true" if F.passive_cancel_returns_port() else "false"))
     lines.append("/-- PASV and EPSV test for an existing listener, start one and record it inside `async with` on a per-connection lock -/")
     lines.append("def passiveStartLocked : Bool := %s" % ("true" if F.passive_start_locked() else "false"))
+    _fin, _drain, _skip = F.reply_queue_facts()
+    lines.append("/-- `response_writer` marks the reply it took as done in a `finally` (also when the write failed) -/")
+    lines.append("def replyWriterFinishesInFinally : Bool := %s" % ("true" if _fin else "false"))
+    lines.append("/-- a failing `response_writer` empties the queue (marking every item done) before it re-raises -/")
+    lines.append("def replyWriterDrainsOnFailure : Bool := %s" % ("true" if _drain else "false"))
+    lines.append("/-- `connection.response` queues nothing once the task that runs `response_writer` is done -/")
+    lines.append("def replySkipsDeadWriter : Bool := %s" % ("true" if _skip else "false"))
     lines.append("def cancelledIsException : Bool := %s" % ("true" if issubclass(asyncio.CancelledError, Exception) else "false"))
     C = sys.modules["aioftp.common"]
     lines.append("")
